@@ -18,11 +18,20 @@
   Hypotheses of the ties that stay visible: `hpow` (`T4 ** 0.25` read as `sqrt (sqrt T4)`), the constructor's
   `len(t_points) = len(p_points)`; the tie's total-order hypothesis `hle` holds in ℝ.
 
-  Not restated (no tie):
-  * `npoint_len`, `npoint_between`, `npoint_const`: the interpolation and smoothing of `NPoint.profile`
-    (`NPointParams.interpolated`, `assembleSmoothed`, i.e. the `.ok` branch of `nPoint`) are not translated; only the node
-    lists and the rejection test are (`src_npoint_rejects`);
-  * `array_between`: `tempArray` (`TemperatureArray.profile`) is not translated;
+  * `srcNPoint q nlayers pressure allEq` — the regenerated WHOLE `NPoint.profile` (node lists, `check_profile`, `np.interp`
+    in log10 P = the model's `npInterp`, the `int(…)` window with `%`, `movingaverage`, border, slice store), with Python's
+    `int()` on reals `pyIntR` (truncation toward zero) and int → float `toFloatR`; `Except.error "InvalidTemperatureException"`
+    / `"ValueError"` are the exceptions the code raises.  `allEq` is the value of `np.all(Tnodes == Tnodes[0])` (False for a
+    Python-float `T_surface`, element-wise for a numpy scalar): the restated theorems hold for BOTH values.
+    `npoint_len`, `npoint_between`, `npoint_const` are restated about it (`src_npoint_len`, `src_npoint_between`,
+    `src_npoint_const`; the window is a non-negative number: `hw0`, the tie's hypothesis that `int(…)` of the window product
+    is not negative);
+
+  * `srcTempArray tp pp rev n pressure` — the regenerated `TemperatureArray.__init__` followed by the regenerated `profile`
+    (both calling patterns: without / with pressure points), `np.linspace` / `np.interp` = the model's, `interp1d` =
+    `interp1dModel` (sorted nodes + `np.interp` + fill values); `array_between` is restated about it (`src_array_between`);
+
+  Restated only in part:
   * `guillot_rejects` / `guillot_positive` are restated layer by layer (the regenerated `profile` is point-wise in the
     pressure; the list length is a statement about the model's list only).
 -/
@@ -33,6 +42,7 @@ set_option linter.unusedSectionVars false
 namespace Taurex.C12SrcProps
 open Taurex Taurex.NpInterp Taurex.Temperature Taurex.C12 Taurex.C12Src
 open Taurex.C10Src (listOf listOf_length listOf_getD)
+open Taurex.SeqSrc (outcomeOf outcomeOf_ok_iff pyIntR toFloatR pyIntR_nonneg toFloatR_nat pyIntR_half oddWindow_pos)
 
 /-! ### the instantiated source expressions -/
 
@@ -110,6 +120,106 @@ theorem src_npoint_rejects (q : NPointParams ℝ) (pressure : List ℝ) (h : q.t
           (log10 (q.pNodes pressure)[i + 1] - log10 (q.pNodes pressure)[i])|) := by
   rw [srcNPointRaises_eq q pressure h, ← nPoint_invalid_iff q 0 pressure]
   exact npoint_rejects q 0 pressure
+
+/-! ### NPoint: the whole regenerated `profile` -/
+
+/-- the regenerated `NPoint.profile` (`allEq` = the value of `np.all(Tnodes == Tnodes[0])`) -/
+noncomputable def srcNPoint (q : NPointParams ℝ) (nlayers : Nat) (pressure : List ℝ) (allEq : Bool) :
+    Except String (List ℝ) :=
+  Gen.SrcC12.npoint_profile q.pSurface q.pTop q.tSurface q.tTop allEq (fun x xp fp => npInterp xp fp x)
+    q.limitSlope nlayers q.pPoints pressure pyIntR q.window q.tPoints toFloatR
+
+/-- the tie, over ℝ: for a non-negative window and `np.all(Tnodes == Tnodes[0])` false the regenerated `profile` IS the
+    model's `nPoint` -/
+theorem srcNPoint_eq (q : NPointParams ℝ) (n : Nat) (pressure : List ℝ) (hlen : q.tPoints.length = q.pPoints.length)
+    (hw0 : 0 ≤ q.window) :
+    outcomeOf "InvalidTemperatureException" (srcNPoint q n pressure false) = nPoint q n pressure := by
+  unfold srcNPoint
+  refine src_npoint_profile q n pressure pyIntR toFloatR hlen toFloatR_nat ?_ pyIntR_half ?_
+  · have : (0 : ℝ) ≤ ofNat' n * (q.window / 100) := by
+      simp only [ofNat'_real]; positivity
+    rw [pyIntR_nonneg this]; rfl
+  · exact src_movingaverage _ _ (oddWindow_pos n q.window) toFloatR toFloatR_nat
+
+/-- the regenerated `profile` in the other reading of `np.all(Tnodes == Tnodes[0])`: a value exactly when the node check
+    passes, and then the constant `1 * T_surface` -/
+theorem srcNPoint_alleq (q : NPointParams ℝ) (n : Nat) (pressure prof : List ℝ)
+    (hlen : q.tPoints.length = q.pPoints.length) (hok : srcNPoint q n pressure true = .ok prof) :
+    q.rejected pressure = false ∧ prof = pressure.map (fun _ => 1 * q.tSurface) := by
+  unfold srcNPoint at hok
+  cases hr : q.rejected pressure
+  · rw [src_npoint_profile_alleq q n pressure pyIntR toFloatR hlen hr] at hok
+    exact ⟨rfl, (Except.ok.inj hok).symm⟩
+  · rw [src_npoint_profile_invalid q n pressure pyIntR toFloatR true _ hlen hr] at hok
+    exact absurd hok (by simp)
+
+/-- NPoint with a smoothing window that is a percentage (0..100) never fails for any layer count: when the regenerated
+    `check_profile` does not raise on the node lists, the regenerated `profile` returns exactly one value per layer — no
+    ValueError at the border store, whatever `np.all(Tnodes == Tnodes[0])` evaluates to -/
+theorem src_npoint_len (q : NPointParams ℝ) (n : Nat) (pressure : List ℝ) (allEq : Bool) (hn : n = pressure.length)
+    (hlen : q.tPoints.length = q.pPoints.length) (hw0 : 0 ≤ q.window) (hw1 : q.window ≤ 100)
+    (hv : srcNPointRaises q pressure = false) :
+    ∃ prof, srcNPoint q n pressure allEq = .ok prof ∧ prof.length = n := by
+  rw [srcNPointRaises_eq q pressure hlen] at hv
+  cases allEq
+  · obtain ⟨prof, hp, hl⟩ := npoint_len q n pressure hn hw0 hw1 hv
+    rw [← srcNPoint_eq q n pressure hlen hw0, outcomeOf_ok_iff] at hp
+    exact ⟨prof, hp, hl⟩
+  · refine ⟨_, src_npoint_profile_alleq q n pressure pyIntR toFloatR hlen hv, ?_⟩
+    simp [hn]
+
+/-- the regenerated `NPoint.profile`, smoothing included, never leaves the range `[lo, hi]` spanned by its node
+    temperatures (so positive nodes give a positive profile); guards as in `npoint_between`, non-negative window -/
+theorem src_npoint_between (q : NPointParams ℝ) (n : Nat) (pressure prof : List ℝ) (allEq : Bool) (lo hi : ℝ)
+    (hlen : q.tPoints.length = q.pPoints.length) (hw0 : 0 ≤ q.window)
+    (hpos : 0 < resolveP q.pTop (pressure.getD (pressure.length - 1) 0))
+    (hT : ∀ t ∈ q.tNodes, lo ≤ t ∧ t ≤ hi) (hok : srcNPoint q n pressure allEq = .ok prof) :
+    ∀ t ∈ prof, lo ≤ t ∧ t ≤ hi := by
+  cases allEq
+  · have h := srcNPoint_eq q n pressure hlen hw0
+    rw [hok] at h
+    exact npoint_between q n pressure prof lo hi hlen hpos hT h.symm
+  · obtain ⟨_, rfl⟩ := srcNPoint_alleq q n pressure prof hlen hok
+    intro t ht
+    simp only [List.mem_map] at ht
+    obtain ⟨_, _, rfl⟩ := ht
+    rw [one_mul]
+    exact hT _ (by simp [NPointParams.tNodes])
+
+/-- all node temperatures equal ⇒ the regenerated `NPoint.profile` is that constant -/
+theorem src_npoint_const (q : NPointParams ℝ) (n : Nat) (pressure prof : List ℝ) (allEq : Bool) (c : ℝ)
+    (hlen : q.tPoints.length = q.pPoints.length) (hw0 : 0 ≤ q.window)
+    (hpos : 0 < resolveP q.pTop (pressure.getD (pressure.length - 1) 0))
+    (hT : ∀ t ∈ q.tNodes, t = c) (hok : srcNPoint q n pressure allEq = .ok prof) : ∀ t ∈ prof, t = c := by
+  intro t ht
+  have := src_npoint_between q n pressure prof allEq c c hlen hw0 hpos
+    (fun t ht => by rw [hT t ht]; exact ⟨le_refl _, le_refl _⟩) hok t ht
+  linarith [this.1, this.2]
+
+/-! ### TemperatureArray -/
+
+/-- the regenerated `TemperatureArray(tp_array, p_points, reverse)` followed by the regenerated `profile` -/
+noncomputable def srcTempArray (tp : List ℝ) (pp : Option (List ℝ)) (rev : Bool) (n : Nat) (pressure : List ℝ) : List ℝ :=
+  match pp with
+  | none => Gen.SrcC12.temparray_profile_plain (fun x xp fp => npInterp xp fp x) (fun a b k => linspace a b k) n
+      (Gen.SrcC12.temparray_init_plain tp rev)
+  | some pts => Gen.SrcC12.temparray_profile_pressure
+      (Gen.SrcC12.temparray_init_pressure tp pts rev interp1dModel).2.2
+      (Gen.SrcC12.temparray_init_pressure tp pts rev interp1dModel).2.1 pressure
+
+theorem srcTempArray_eq (tp : List ℝ) (pp : Option (List ℝ)) (rev : Bool) (n : Nat) (pressure : List ℝ) :
+    srcTempArray tp pp rev n pressure = tempArray tp pp rev n pressure := by
+  cases pp with
+  | none => exact src_temparray_plain tp rev n pressure
+  | some pts => exact src_temparray_pressure tp pts rev n pressure
+
+/-- TemperatureArray (both code paths, optional reversal), about the regenerated `__init__` + `profile`: one value per
+    layer, inside the range of the tabulated temperatures -/
+theorem src_array_between (tp : List ℝ) (pp : Option (List ℝ)) (rev : Bool) (n : Nat) (pressure : List ℝ)
+    (lo hi : ℝ) (hne : 0 < tp.length) (hpp : ∀ pts, pp = some pts → 0 < pts.length)
+    (hn : n = pressure.length) (hT : ∀ t ∈ tp, lo ≤ t ∧ t ≤ hi) :
+    (srcTempArray tp pp rev n pressure).length = n ∧ ∀ t ∈ srcTempArray tp pp rev n pressure, lo ≤ t ∧ t ≤ hi := by
+  rw [srcTempArray_eq]; exact array_between tp pp rev n pressure lo hi hne hpp hn hT
 
 /-! ### Rodgers 2000 -/
 
